@@ -3,8 +3,8 @@
    only assumption about them is the premise [match_tokens] below (checked on the real tokenizers by the harness;
    today's pure-Go build violates it for phrases the reader turns into a multi-token gram hash or into no token -
    finding C20-bloom-gram-phrase). *)
-From Coq Require Import List Bool Arith.
-From OG Require Import C20.BloomModel C20.BloomProofs.
+From Coq Require Import List Bool Arith NArith.
+From OG Require Import C20.BloomModel C20.BloomProofs C20.BloomRepair C20.TokModel C20.TokProofs.
 Import ListNotations.
 
 Theorem bloom_no_false_negative : forall (token : Type) (hashpos : token -> list nat) ts t,
@@ -44,4 +44,60 @@ Proof.
   split; [|split; vm_compute; reflexivity].
   intros p v H. split; [discriminate|]. intros t [<- | []]. simpl in H.
   apply existsb_exists in H. destruct H as (x & Hx & E). apply Nat.eqb_eq in E. now subst.
+Qed.
+
+(* ---------- repaired reader (props/C20/fix5.patch): a phrase without a token is "may match" ----------
+   the premise shrinks to an inclusion, and is needed for the values of the block only *)
+Theorem C20_bloom_skip_sound_repaired :
+  forall (token : Type) (hashpos : token -> list nat) (value phrase : Type)
+         (vtokens : value -> list token) (ptokens : phrase -> list token) (pmatch : phrase -> value -> bool)
+         other f0 inschema (rows : list (row value)) r e,
+  (forall r v p, In r rows -> r f0 = Some v -> pmatch p v = true -> incl (ptokens p) (vtokens v)) ->
+  In r rows -> sk_fold (eval_pred value phrase pmatch other r) e = true ->
+  bloom_kept_r token hashpos phrase ptokens f0 inschema (block_filter token hashpos value vtokens f0 rows) e = true.
+Proof. exact BloomRepair.bloom_skip_sound_r. Qed.
+Print Assumptions C20_bloom_skip_sound_repaired.
+
+(* the repaired reader keeps every block today's reader keeps *)
+Theorem C20_bloom_repaired_prunes_less :
+  forall (token : Type) (hashpos : token -> list nat) (phrase : Type) (ptokens : phrase -> list token) f0 F a,
+  pred_hit token hashpos phrase ptokens f0 F a = true -> pred_hit_r token hashpos phrase ptokens f0 F a = true.
+Proof. exact BloomRepair.pred_hit_le. Qed.
+
+(* ---------- the tokenizer premise, PROVED for ASCII values ----------
+   tokens = SimpleTokenizer (maximal runs of non-split bytes: what the pure-Go writer inserts and, for ASCII text, what the
+   repaired reader looks a phrase up by), finder = SimpleTokenFinder (row semantics of MATCHPHRASE), any split table. *)
+Theorem C20_finder_tokens_incl : forall (split : N -> bool) p v,
+  ascii v -> finder split p v = true -> incl (tokens split p) (tokens split v).
+Proof. exact finder_tokens_incl. Qed.
+Print Assumptions C20_finder_tokens_incl.
+
+(* closed end-to-end statement for ASCII text: no premise about the tokenizers is left; the hash function stays abstract *)
+Theorem C20_bloom_skip_sound_ascii :
+  forall (split : N -> bool) (hashpos : list N -> list nat) other f0 inschema (rows : list (row (list N))) r e,
+  (forall r v, In r rows -> r f0 = Some v -> ascii v) ->
+  In r rows -> sk_fold (eval_pred (list N) (list N) (finder split) other r) e = true ->
+  bloom_kept_r (list N) hashpos (list N) (tokens split) f0 inschema
+               (block_filter (list N) hashpos (list N) (tokens split) f0 rows) e = true.
+Proof.
+  intros split hashpos other f0 inschema rows r e Ha Hr He.
+  eapply BloomRepair.bloom_skip_sound_r; eauto.
+  intros r0 v p Hr0 Hv Hm. apply finder_tokens_incl; eauto.
+Qed.
+Print Assumptions C20_bloom_skip_sound_ascii.
+
+(* satisfiable and not vacuous: split table = {space, '/'}, value "ab cd", phrase "cd" is kept, phrase "zz" is pruned,
+   the separator-only phrase "/" (no token) is kept by the repaired reader *)
+Example C20_bloom_ascii_example :
+  let split := fun b : N => ((b =? 32) || (b =? 47))%N in
+  let hp := fun t : list N => [N.to_nat (fold_left N.add t 0%N mod 61); N.to_nat ((7 * fold_left N.add t 0 + N.of_nat (length t)) mod 59)%N] in
+  let rows : list (row (list N)) := [fun c => if c =? 0 then Some [97; 98; 32; 99; 100]%N else None] in
+  let F := block_filter (list N) hp (list N) (tokens split) 0 rows in
+  ascii [97; 98; 32; 99; 100]%N /\ finder split [99; 100]%N [97; 98; 32; 99; 100]%N = true /\
+  bloom_kept_r (list N) hp (list N) (tokens split) 0 (fun c => c =? 0) F (SAtom (PMatch (list N) 0 [99; 100]%N)) = true /\
+  bloom_kept_r (list N) hp (list N) (tokens split) 0 (fun c => c =? 0) F (SAtom (PMatch (list N) 0 [122; 122]%N)) = false /\
+  bloom_kept_r (list N) hp (list N) (tokens split) 0 (fun c => c =? 0) F (SAtom (PMatch (list N) 0 [47]%N)) = true.
+Proof.
+  split; [|split; [|split; [|split]]]; try (vm_compute; reflexivity).
+  intros x Hx. simpl in Hx. repeat (destruct Hx as [<- | Hx]; [reflexivity|]). destruct Hx.
 Qed.
